@@ -169,9 +169,29 @@ define %e3 @f(%e2 %x, %b2 %c) {
 }
 `
 
+// c12AS: globals and functions in address spaces, referenced through constant expressions whose
+// type depends on the address space, from entities written before and after them (a translator that
+// fills in the address space of an entity in map order types such an expression too early in some
+// orders only).
+const c12AS = `@g1 = addrspace(1) global [4 x i32] zeroinitializer
+@p1 = global i32 addrspace(1)* getelementptr ([4 x i32], [4 x i32] addrspace(1)* @g1, i32 0, i32 1)
+@p2 = global i32 addrspace(2)* getelementptr ([4 x i32], [4 x i32] addrspace(2)* @g2, i32 0, i32 2)
+@g2 = addrspace(2) global [4 x i32] zeroinitializer
+@sel = global i32 addrspace(1)* select (i1 icmp eq (i32 addrspace(2)* getelementptr ([4 x i32], [4 x i32] addrspace(2)* @g2, i32 0, i32 0), i32 addrspace(2)* null), i32 addrspace(1)* getelementptr ([4 x i32], [4 x i32] addrspace(1)* @g1, i32 0, i32 0), i32 addrspace(1)* null)
+@fp = global void () addrspace(3)* @f
+define void @f() addrspace(3) {
+  %q = getelementptr [4 x i32], [4 x i32] addrspace(1)* @g1, i32 0, i32 3
+  store i32 1, i32 addrspace(1)* %q
+  store i32 2, i32 addrspace(2)* getelementptr ([4 x i32], [4 x i32] addrspace(2)* @g2, i32 0, i32 3)
+  ret void
+}
+@a1 = alias i32, i32 addrspace(1)* getelementptr ([4 x i32], [4 x i32] addrspace(1)* @g1, i32 0, i32 1)
+@bc = global i8 addrspace(3)* bitcast (void () addrspace(3)* @f to i8 addrspace(3)*)
+`
+
 var c12inputs = []struct {
 	name, text string
-}{{"A", c12A}, {"B", c12B}, {"C-rejected", c12C}, {"C2-rejected-2faults", c12C2}, {"C3-rejected", c12C3}, {"P1", c13saltedN(c13P1, 7)}, {"P2", c13saltedN(c13P2, 7)}, {"U-undefined-attrgroups", c12U}, {"T-type-alias-chains", c12T}}
+}{{"A", c12A}, {"B", c12B}, {"C-rejected", c12C}, {"C2-rejected-2faults", c12C2}, {"C3-rejected", c12C3}, {"P1", c13saltedN(c13P1, 7)}, {"P2", c13saltedN(c13P2, 7)}, {"U-undefined-attrgroups", c12U}, {"T-type-alias-chains", c12T}, {"AS-address-spaces", c12AS}}
 
 // c12outcome parses text and returns "ERR" (rejected) or the printed module.
 func c12outcome(parse func() (*ir.Module, error)) string {
